@@ -127,6 +127,9 @@ func c01Body(sc *WF) Verdict {
 	classes := map[string]bool{}
 	for r := 0; r < sc.runs(); r++ {
 		rr := x.run(context.Background())
+		if runaway(rr.Panic) {
+			return ok(false, "scenario-did-not-terminate") // C03/C10 territory, see runaway()
+		}
 		if rr.Panic != "" {
 			return bad("C01:panic", "run panicked: %s", rr.Panic)
 		}
